@@ -1,4 +1,5 @@
 import MpfVerif.Lemmas.Show
+import MpfVerif.Lemmas.ShowEvents
 /-!
 # C17 — Shows run on schedule without drift and clean up after themselves
 
@@ -69,10 +70,42 @@ completing), the context it used in the players has been cleared (`_players` is 
 theorem context_removed (ops : List Op) (h : (run {} ops).1.stopped = true) : (run {} ops).1.dirty = false :=
   ((run_inv ops {} init_inv).2 h).2
 
-/-- Events once (partial): once `stopped` has been posted (the show is stopped) none of played / stopped / looped /
-completed is posted again for this instance, whatever requests follow.  Not proved here: that the single request or
-callback which stops the show emits `stopped` (and `completed`) exactly once — checked by the oracle on every run. -/
-theorem events_once_partial (ops : List Op) (s : RS) (hs : s.stopped = true) (hp : ∀ o ∈ ops, o.isPlay = false)
+/-- Events once: for every show and every sequence of requests and timer callbacks following its `play`, `played`
+is posted exactly once, `stopped` exactly once if the instance ends up stopped (by request or by completing) and not
+at all while it runs, `completed` at most once and only together with `stopped`, and `looped` exactly once per consumed
+loop (granted loops = `looped` events + loops left; for an endless show every wrap posts one, see `looped_with_wrap`). -/
+theorem events_once (durs : List Nat) (num den : Nat) (loops : Option Nat) (start : Nat) (running manual : Bool) (t : Nat)
+    (rest : List Op) (hp : ∀ o ∈ rest, o.isPlay = false) :
+    let r := run {} (.play durs num den loops start running manual t :: rest)
+    cntE .played r.2 = 1 ∧
+    cntE .stopped r.2 = (if r.1.stopped then 1 else 0) ∧
+    cntE .completed r.2 ≤ cntE .stopped r.2 ∧
+    (match loops, r.1.loops with
+      | some n, some m => cntE .looped r.2 + m = n
+      | none, none => True
+      | _, _ => False) := by
+  simp only [run]
+  exact run_ledger loops rest _ _ hp (play_ledger durs num den loops start running manual t)
+
+/-- `looped` is posted exactly when a step wraps around: every `_run_next_step` of a running show emits either one step
+`eff i t` followed by the request's events and — iff the index wrapped to step 0, consuming one loop — `looped`; or,
+with the loop budget exhausted, the stopping sequence. -/
+theorem looped_with_wrap (s : RS) (post : List Ev) (pa : Bool) (hs : s.stopped = false) :
+    RunRes s post (runNext s post pa) := runNext_out s post pa hs
+
+/-- The stopping step: the one request or timer callback that stops a running show emits, in this order, the clean-up
+of its context (if it played anything), `stopped`, and then either nothing (a stop request) or the request's own
+acknowledgement followed by `completed` (the show ran out of loops) — the order in which `RunningShow` posts them:
+`stop()` first, `events_when_completed` last.  Together with `events_once` (exactly one `stopped` in the whole trace)
+and `no_effect_after_stop` this fixes the position of every event. -/
+theorem stopping_step_order (s : RS) (o : Op) (hp : o.isPlay = false) (hs : s.stopped = false)
+    (h : (step s o).1.stopped = true) :
+    ∃ pre post, (step s o).2 = pre ++ Obs.ev .stopped :: post ∧ (∀ x ∈ pre, x = Obs.clr) ∧
+      (post = [] ∨ ∃ acks, post = acks.map Obs.ev ++ [Obs.ev .completed] ∧ IsAck acks) :=
+  step_stop_shape s o hp hs h
+
+/-- …and nothing but `paused` acknowledgements after `stopped`. -/
+theorem nothing_after_stopped (ops : List Op) (s : RS) (hs : s.stopped = true) (hp : ∀ o ∈ ops, o.isPlay = false)
     (e : Ev) (he : e ≠ .paused) : Obs.ev e ∉ (run s ops).2 := by
   intro hmem
   have := (no_effect_after_stop ops s hs hp).2 _ hmem
@@ -86,5 +119,7 @@ example : effs (run {} (.play [8, 16, 8] 2 1 none 2 true false 64 :: fires [72, 
 example : (run {} [.play [8, 8] 1 1 (some 0) 1 true false 64, .fire 72, .fire 80, .back 90, .fire 200]).1.stopped = true := by
   decide
 example : (run {} [.play [8, 8] 1 1 none 1 true false 64, .resume 66, .stop 70]).1.timers = [] := by decide
+example : (run {} [.play [8, 8] 1 1 (some 1) 1 true false 64, .fire 72, .fire 80, .fire 88, .fire 96, .back 99]).2 =
+    [.eff 0 64, .ev .played, .eff 1 72, .eff 0 80, .ev .looped, .eff 1 88, .clr, .ev .stopped, .ev .completed] := by decide
 
 end MpfVerif.C17
